@@ -8,7 +8,14 @@ Per core (Python Emulator, Rust LlamaExecutor; never compared with each other):
   Rust call-page / call-frame stacks), then its *architectural* state is overwritten with (S, M) and the
   probe instruction X is executed.  The result must equal a fresh core given (S, M, X).
 * fresh-after-history: a second fresh core created in the same process after the history must equal the
-  fresh core created before it (module-level caches, Rust statics / thread-locals).
+  fresh reference (module-level caches, Rust statics / thread-locals).
+* fresh-process: the fresh reference computed in the worker process must equal the same run in a process that
+  has executed nothing else (Python: grandchild of a fork server created before the worker ran anything;
+  Rust: brand-new harness process).  In half of the cases the worker does not run the probe before the
+  history at all ("history-first"), so that a process-wide cache filled by the history cannot be masked by
+  the reference run; the pristine process is then the only reference.
+* Python only: in half of the rounds a tracer object is attached to the memory of the long-lived emulator
+  before the probe (tracing state must not influence results).
 * split: a program run K steps on a fresh core vs n steps, architectural state transferred into a fresh
   core, K-n more steps (per-step comparison of the suffix).
 * twin: two fresh cores alive at the same time, stepped alternately on identical inputs, must produce
@@ -37,7 +44,9 @@ RULE = ("probe cases: every (prefix|none, opcode) pair of decoder-accepted encod
         "preceded on a long-lived core by 1-3 rounds of generated history programs (4-40 instructions: "
         "random valid non-control-flow encodings plus structured CALL/CALLF-without-return, CALL..RET, "
         "IR..RETI, counted loops; half of the histories overlap the probe's address with different bytes) "
-        "and junk injected into TEMP0-13 / call bookkeeping; split cases: generated programs of 8-60 "
+        "and junk injected into TEMP0-13 / call bookkeeping (+ a tracer object attached on the Python core in half "
+        "of the rounds); references: fresh core in the worker (half of the cases: only after the history) and "
+        "fresh core in a pristine process; split cases: generated programs of 8-60 "
         "steps x split points (quick: <= 10 per program, thorough: all).  Non-trivial probe case = the "
         "history executed >= 3 instructions AND (the probe wrote a TEMP register on the Python core, or the "
         "probe is a call/return-family instruction executed with non-empty call bookkeeping, or the probe "
@@ -120,6 +129,23 @@ def diff_step(a: Dict[str, Any], b: Dict[str, Any], sha: pycore.HashMemory, shb:
 # --------------------------------------------------------------------------------------------------
 # Python core drivers
 
+class _DummyTracer:
+    """What Emulator.execute_instruction / decode_instruction duck-type on memory._perf_tracer:
+    .slice(track, name, args) context manager and .instant(track, name, args).  Records nothing architectural."""
+
+    def __init__(self) -> None:
+        self.events = 0
+
+    def instant(self, *a: Any, **k: Any) -> None:
+        self.events += 1
+
+    def slice(self, *a: Any, **k: Any) -> Any:
+        import contextlib
+
+        self.events += 1
+        return contextlib.nullcontext()
+
+
 _zygote: Optional[PR.PyPristine] = None
 _zygote_pid: Optional[int] = None
 
@@ -201,6 +227,10 @@ def py_probe_rounds(rounds: List[Dict[str, Any]], ref_first: bool = True) -> Lis
             pycore.set_regs(emu, {k: int(v)})
         if "call_sub_level" in junk:
             emu.regs.call_sub_level = int(junk["call_sub_level"])
+        if junk.get("py_tracer"):
+            mem._perf_tracer = _DummyTracer()  # tracing state: a tracer object attached to the memory
+        elif hasattr(mem, "_perf_tracer"):
+            del mem._perf_tracer
         # transplant the architectural state (S, M)
         mem.seed = int(probe.get("seed", 0)) & 0xFFFFFFFF
         mem.over = {pycore.canon(a): v & 0xFF for a, v in probe.get("mem", [])}
@@ -242,6 +272,23 @@ def py_twin(prog: Dict[str, Any]) -> Tuple[List[Dict[str, Any]], List[Dict[str, 
 
 # --------------------------------------------------------------------------------------------------
 # Rust core drivers (cpu.run requests; see rust/harness/src/cpu.rs)
+
+
+def rs_batch(reqs: List[Dict[str, Any]]) -> List[Dict[str, Any]]:
+    """cpu.batch on the per-process harness.  Every batch this module sends is self-contained (its sessions
+    are created inside the batch), so if the harness process disappears (the box is shared; a SIGKILL from
+    outside was observed once) the batch is simply re-sent to a new process.  A deterministic crash fails
+    again and surfaces as HarnessError (exit 2), never as a verdict."""
+    last: Optional[HarnessError] = None
+    for _ in range(3):
+        try:
+            return rsclient.shared().cpu_batch(reqs)
+        except HarnessError as exc:
+            last = exc
+            if "died" not in str(exc) and "pipe failed" not in str(exc):
+                raise
+    assert last is not None
+    raise last
 
 
 def _rs_steps(resp: Dict[str, Any]) -> List[Dict[str, Any]]:
@@ -308,7 +355,7 @@ def rs_twin(rust: rsclient.Rust, prog: Dict[str, Any], tag: str) -> Tuple[List[D
     for _ in range(k - 1):
         reqs.append({"sess": f"{tag}-a", "keep": True, "steps": 1})
         reqs.append({"sess": f"{tag}-b", "keep": True, "steps": 1})
-    res = rust.cpu_batch(reqs)
+    res = rs_batch(reqs)
     ta: List[Dict[str, Any]] = []
     tb: List[Dict[str, Any]] = []
     for i in range(0, len(res), 2):
@@ -444,7 +491,7 @@ def eval_probe_cases(cases: List[Dict[str, Any]], rep: Report, cores: Tuple[str,
                 r = rs_probe_requests(case["rounds"], f"p{j}", case.get("ref_first", True))
                 spans.append((len(reqs), len(reqs) + len(r)))
                 reqs += r
-            res = rust.cpu_batch(reqs)
+            res = rs_batch(reqs)
             for (a, b), case in zip(spans, chunk):
                 rs_results.append(rs_probe_rounds(case["rounds"], res[a:b], case.get("ref_first", True)))
             # reference runs in a brand-new harness process
@@ -495,6 +542,11 @@ def eval_probe_cases(cases: List[Dict[str, Any]], rep: Report, cores: Tuple[str,
                     labels.append("python-exception:probe")
                 if any(r["hist_err"] for r in py):
                     labels.append("python-exception:history")
+                if any(r["hist_err"] is None and r["hist_steps"] < int(rd["hist"].get("steps", 0))
+                       for rd, r in zip(case["rounds"], py)):
+                    labels.append("history-left-program(py)")
+                if any(rd.get("junk", {}).get("py_tracer") for rd in case["rounds"]):
+                    labels.append("tracer:attached(py)")
             rs = per_core.get("rs")
             if rs is not None:
                 if any("err" in r["pristine"] for r in rs):
@@ -542,11 +594,16 @@ def eval_split_cases(cases: List[Dict[str, Any]], rep: Report, cores: Tuple[str,
                 continue
             if core == "py":
                 full = py_run(prog)
-                ta, tb = py_twin(prog)
             else:
                 assert rust is not None
-                full = truncate(prog, _rs_steps(rust.cpu_batch([dict(prog, sess="s-full", keep=False)])[0]))
-                ta, tb = rs_twin(rust, prog, "s-tw")
+                full = truncate(prog, _rs_steps(rs_batch([dict(prog, sess="s-full", keep=False)])[0]))
+            # all further runs are limited to the steps the sequential run executed inside the program, so a
+            # run that wandered off (expensive garbage with huge counted instructions) is executed only once
+            peff = dict(prog, steps=max(1, len(full)))
+            if core == "py":
+                ta, tb = py_twin(peff)
+            else:
+                ta, tb = rs_twin(rust, peff, "s-tw")
             # usable split points: both sides non-empty, the step before the split completed normally
             good = len(full)
             for i, s in enumerate(full):
@@ -557,13 +614,13 @@ def eval_split_cases(cases: List[Dict[str, Any]], rep: Report, cores: Tuple[str,
             suffixes: Dict[int, List[Dict[str, Any]]] = {}
             if core == "py":
                 for n in splits:
-                    suffixes[n] = py_run(split_case_for(prog, full, n))
+                    suffixes[n] = py_run(split_case_for(peff, full, n))
             else:
-                reqs = [dict(split_case_for(prog, full, n), sess="s-suf", keep=False) for n in splits]
+                reqs = [dict(split_case_for(peff, full, n), sess="s-suf", keep=False) for n in splits]
                 if reqs:
-                    for n, r in zip(splits, rust.cpu_batch(reqs)):
+                    for n, r in zip(splits, rs_batch(reqs)):
                         suffixes[n] = truncate(prog, _rs_steps(r))
-            for v in judge_split(clean, core, full, [ta, tb], suffixes):
+            for v in judge_split(dict(clean, prog=peff), core, full, [ta, tb], suffixes):
                 rep.violate(v)
             if any("err" in s for s in full):
                 labels.append(("python-exception" if core == "py" else "rust-error") + ":program")
@@ -620,8 +677,13 @@ def run(ctx: Ctx) -> Report:
         "only one of the two runs it is a history dependence (exception-asymmetry)",
         "the probe instruction is followed by NOP bytes; histories are generated programs on the same "
         "hash-filled bus model as C06",
-        "the long-lived core lives for one case (1-3 history rounds) so that a replay file is self-contained; "
-        "hidden state accumulated over thousands of instructions is not explored",
+        "the long-lived core lives for one case (1-3 history rounds, <= 90 (thorough 220) steps each) so that a "
+        "replay file is self-contained; hidden state accumulated over thousands of instructions is explored only "
+        "through the worker process itself (fresh-process subcheck: worker after ~10^5 instructions vs pristine)",
+        "histories/programs stop when PC leaves the generated program (Python: before the step; Rust: trace "
+        "truncated afterwards) -- a pure function of PC, applied identically to both runs that are compared",
+        "Rust tracing is compiled out (perfetto feature off in the shadow manifest); Python tracing state is "
+        "represented by an attached duck-typed tracer object, not by a running Perfetto trace file",
         "split/twin runs stop at the first halted state (stop_on_halt) or error; split points after such a step "
         "are not used",
     ]
